@@ -493,6 +493,8 @@ func cmdSearch(seed uint64, n int) {
 	}
 	// count-field inflation of every box type that allocates from a count or length field
 	searchCounts(r, n, &jobs, &descs)
+	// trailing index: every mfro / mfra / tfra combination under the ISM flag
+	searchTrail(r, n/40, &jobs, &descs)
 	res := runJobs(jobs, nprocs())
 	nfail := 0
 	for i, rs := range res {
